@@ -73,11 +73,11 @@ Proof.
 Qed.
 
 (* the three phase factors multiply to the phase of the defining sum *)
-Lemma phase_product (a : Raxis) (sh : bool) (sg : R) (j k : nat) : is_sign sg ->
+Lemma phase_product (a : Raxis) (sh half : bool) (sg : R) (j k : nat) : is_sign sg ->
   (2 <= a_n a)%nat -> stride a <> 0 ->
   cmul (cmul (pre_fac cispi (a_n a) sh sg j) (tw_tab cispi sg (a_n a) (j * k)))
-       (cispi (sg * a_min a * coord (recip_axis 1 a (Some sh) false) k))
-  = cispi (sg * (a_min a + INR j * stride a) * coord (recip_axis 1 a (Some sh) false) k).
+       (cispi (sg * a_min a * coord (recip_axis 1 a (Some sh) half) k))
+  = cispi (sg * (a_min a + INR j * stride a) * coord (recip_axis 1 a (Some sh) half) k).
 Proof.
   intros Hs Hn Hst.
   rewrite (tw_tab_root cispi cis_add cis_0 cis_2) by (try assumption; lia).
@@ -131,6 +131,69 @@ Proof.
   unfold pre. rewrite tensor_mult_nth by lia. cbn [tensor_fac]. rewrite axis_index_1d by exact Hj.
   rewrite cmul_1_r, tabulate_nth by exact Hj.
   rewrite !cmul_assoc. f_equal.
-  rewrite <- cmul_assoc. apply phase_product; assumption.
+  rewrite <- cmul_assoc. apply (phase_product a sh false sg j k Hs Hn Hst).
+Qed.
+
+Lemma nth_firstn {A} (l : list A) m k d : (k < m)%nat -> nth k (firstn m l) d = nth k l d.
+Proof.
+  revert m k; induction l as [|a l IH]; intros [|m] [|k] H; cbn [firstn nth]; try lia; try reflexivity.
+  apply IH. lia.
+Qed.
+
+(* the same for the half-complex transform of a REAL line (all-shifted, sign '-'): entries
+   k = 0 .. n/2 of the half spectrum *)
+Theorem ft_is_defining_sum_hc (a : Raxis) (x : list Cx) (k : nat) :
+  (2 <= a_n a)%nat -> stride a <> 0 -> length x = a_n a -> Forall (fun z => snd z = 0) x ->
+  (k < a_n a / 2 + 1)%nat ->
+  nth k (ft_forward pi sq2pi cispi (mk_ft [a] [0%nat] [true] (-1) true) x) c0 =
+  cscal (kernel pi sq2pi cispi (stride a) (freq (a_n a) (a_n a / 2 + 1) true k))
+        (csum (fun j => cmul (nth j x c0)
+                             (cispi (-1 * (a_min a + INR j * stride a) * coord (recip_axis 1 a (Some true) true) k)))
+              (a_n a)).
+Proof.
+  intros Hn Hst Hx Hreal Hk.
+  assert (Hs : is_sign (-1)) by (right; reflexivity).
+  set (n := a_n a) in *.
+  assert (Hkn : (k < n)%nat).
+  { pose proof (Nat.div_mod_eq n 2). pose proof (Nat.mod_upper_bound n 2 ltac:(lia)). lia. }
+  unfold ft_forward, f_rshape, f_shape, dft_forward, rfftn, hc_shape, set_nth.
+  cbn [f_grid f_axes f_shifts f_sg f_hc map last_axis last removelast nth firstn skipn app].
+  fold n. cbn [pre_facs post_facs nth andb Nat.eqb]. fold n.
+  set (pre := tensor_mult [n] [(0%nat, tabulate n (pre_fac cispi n true (-1)))] x).
+  assert (Hpre : length pre = n) by (unfold pre; rewrite tensor_mult_length; exact Hx).
+  assert (Hprer : map cre pre = pre).
+  { apply (nth_ext _ _ c0 c0); [rewrite map_length; reflexivity|]. intros i Hi. rewrite map_length in Hi.
+    rewrite (nth_indep _ c0 (cre c0)) by (rewrite map_length; exact Hi). rewrite (map_nth cre).
+    unfold pre in *. rewrite tensor_mult_length in Hi. rewrite tensor_mult_nth by exact Hi.
+    cbn [tensor_fac]. rewrite axis_index_1d by lia. rewrite cmul_1_r, tabulate_nth by lia.
+    assert (Hxi : snd (nth i x c0) = 0) by (rewrite Forall_forall in Hreal; apply Hreal, nth_In; exact Hi).
+    destruct (nth i x c0) as [xr xi]. cbn [snd] in Hxi. subst xi.
+    unfold pre_fac. destruct (Nat.even i); cx_simpl; apply cx_eq; cbn [fst snd]; lra. }
+  assert (Hd : dftn cispi (- none_)%num [(n / 2 + 1)%nat] [] (along_ax [n] 0 (n / 2 + 1) (rfft1n cispi n) pre)
+               = firstn (n / 2 + 1) (dft1 cispi (-1) pre)).
+  { cbn [dftn fold_right]. unfold along_ax, inner_of. cbn [firstn skipn prodn fold_right nth].
+    rewrite <- Hpre at 1.
+    rewrite along_1d.
+    - unfold rfft1n. cbv zeta. rewrite Hprer. rewrite dft1n_eq by exact Hpre.
+      replace (- none_)%num with (-1) by (numR; lra). reflexivity.
+    - unfold rfft1n. cbv zeta. rewrite firstn_length, dft1n_length, map_length, Hpre.
+      pose proof (Nat.div_mod_eq n 2). pose proof (Nat.mod_upper_bound n 2 ltac:(lia)). lia. }
+  rewrite Hd.
+  assert (Hlen : length (firstn (n / 2 + 1) (dft1 cispi (-1) pre)) = (n / 2 + 1)%nat).
+  { rewrite firstn_length, (dft1_length cispi), Hpre.
+    pose proof (Nat.div_mod_eq n 2). pose proof (Nat.mod_upper_bound n 2 ltac:(lia)). lia. }
+  rewrite tensor_mult_nth by (rewrite Hlen; exact Hk).
+  cbn [tensor_fac]. rewrite axis_index_1d by exact Hk. rewrite cmul_1_r.
+  rewrite tabulate_nth by exact Hk.
+  rewrite nth_firstn by exact Hk.
+  unfold dft1. rewrite (dft_gen_nth Cx c0 cadd cmul) by lia. rewrite Hpre.
+  unfold post_fac. cbv zeta. cbn [a_n recip_axis]. fold n.
+  rewrite cscal_cmul_r. f_equal.
+  rewrite <- (sum_scal_r Cx c0 c1 cadd cmul csub copp cx_ring).
+  apply (sum_ext Cx c0 cadd). intros j Hj.
+  unfold pre. rewrite tensor_mult_nth by lia. cbn [tensor_fac]. rewrite axis_index_1d by exact Hj.
+  rewrite cmul_1_r, tabulate_nth by exact Hj.
+  rewrite !cmul_assoc. f_equal.
+  rewrite <- cmul_assoc. apply (phase_product a true true (-1) j k Hs Hn Hst).
 Qed.
 End DefSum.
